@@ -184,9 +184,13 @@ def obligations():
         Ob('O6.1-int-3', 'match compiler == first-match (or rejection), int32 scrutinee, 3 rows', ob_match, ('quick', 'thorough'), 2, dict(sty='i', rows=3, depth=0)),
         Ob('O6.1-boolbool-2', 'match compiler == first-match, (bool,bool) scrutinee, 2 rows', ob_match, ('quick', 'thorough'), 3, dict(sty=TB, rows=2, depth=1)),
         Ob('O6.1-boolint-2', 'match compiler == first-match, (bool,int32) scrutinee, 2 rows', ob_match, ('quick', 'thorough'), 3, dict(sty=TBI, rows=2, depth=1)),
-        Ob('O6.1-boolbool-3', 'match compiler == first-match, (bool,bool) scrutinee, 3 rows', ob_match, ('thorough',), 30, dict(sty=TB, rows=3, depth=1)),
-        Ob('O6.1-boolint-3', 'match compiler == first-match, (bool,int32) scrutinee, 3 rows', ob_match, ('thorough',), 30, dict(sty=TBI, rows=3, depth=1)),
-        Ob('O6.1-nested-2', 'match compiler == first-match, ((bool,int32),bool) scrutinee, 2 rows', ob_match, ('thorough',), 30, dict(sty=('t', [TBI, 'b']), rows=2, depth=2)),
+        Ob('O6.1-boolbool-3', 'match compiler == first-match, (bool,bool) scrutinee, 3 rows', ob_match, ('quick', 'thorough'), 30, dict(sty=TB, rows=3, depth=1)),
+        Ob('O6.1-boolint-3', 'match compiler == first-match, (bool,int32) scrutinee, 3 rows', ob_match, ('quick', 'thorough'), 30, dict(sty=TBI, rows=3, depth=1)),
+        Ob('O6.1-nested-2', 'match compiler == first-match, ((bool,int32),bool) scrutinee, 2 rows', ob_match, ('quick', 'thorough'), 30, dict(sty=('t', [TBI, 'b']), rows=2, depth=2)),
+        Ob('O6.1-int-4', 'match compiler == first-match (or rejection), int32 scrutinee, 4 rows', ob_match, ('thorough',), 5, dict(sty='i', rows=4, depth=0)),
+        Ob('O6.1-intint-3', 'match compiler == first-match, (int32,int32) scrutinee, 3 rows', ob_match, ('thorough',), 60, dict(sty=('t', ['i', 'i']), rows=3, depth=1)),
+        Ob('O6.1-boolbool-4', 'match compiler == first-match, (bool,bool) scrutinee, 4 rows', ob_match, ('thorough',), 200, dict(sty=TB, rows=4, depth=1)),
+        Ob('O6.1-nested-3', 'match compiler == first-match, ((bool,int32),bool) scrutinee, 3 rows', ob_match, ('thorough',), 200, dict(sty=('t', [TBI, 'b']), rows=3, depth=2)),
     ]
 
 META = {
